@@ -78,7 +78,8 @@ def _enc_ok(ch: str, cs: str) -> bool:
 
 
 _NAME_CHARS = st.one_of(
-    st.sampled_from(["a", "b", "field", "f1", ";", "=", " ", "é", "中", ":", ",", "'", "x y", "a;b=c", "name", "*", "%22", "&"]),
+    st.sampled_from(["a", "b", "field", "f1", ";", "=", " ", "é", "中", ":", ",", "'", "x y", "a;b=c", "name", "*", "%22", "&",
+                     "a\x0bb", "a\x0cb", "x\x1cy", "n\x85m", "l\u2028s", "p\u2029s", "t\tb", "co:lon"]),
     st.text(alphabet="abc123;= .:é-_", min_size=1, max_size=5),
 )
 
@@ -224,7 +225,9 @@ def response_recipes(draw, kinds=("empty", "plain", "html", "json", "redirect", 
     elif kind == "json":
         r["content"] = draw(json_values)
     elif kind == "redirect":
-        r["url"] = draw(st.sampled_from(["/", "/next", "https://example.org/a?b=1#c", "/é", "/a b", "//host/x", "?q=1", ""]))
+        r["url"] = draw(st.sampled_from(["/", "/next", "https://example.org/a?b=1#c", "/é", "/a b", "//host/x", "?q=1", "", "/中文/", "https://例え.jp/パス?q=値", "/a\u2028b"]))
+        if draw(st.booleans()):
+            r["url_object"] = True  # pass a baize URL object instead of a str
     elif kind == "stream":
         r["chunks"] = draw(st.lists(st.one_of(st.just(b""), st.binary(min_size=1, max_size=6)), max_size=5))
         if draw(st.integers(0, 3)) == 0:
